@@ -684,10 +684,10 @@ class CallMixin:
             cenv[g] = self.ev_spec(wexpr, cenv)        # witness for a ghost parameter of the callee (existential in its requires)
         for i, (nm, r) in enumerate(self.clauses(c.get('requires', []))):
             self.oblige(f'pre@call[{key}]#{nm}', self.truth(self.ev_spec(r, cenv)), node, info=tag)
-        extra = (self.cur_contract or {}).get('call_requires', {}).get(key, []) if self.frame.fn_key == self.cur_key else []
+        extra = (self.cur_contract or {}).get('call_requires', {}).get(key, [])
         if extra:
             xenv = dict(cenv)
-            xenv.update(self.frame.env)      # the caller's names win (its own self); callee parameter names stay visible
+            xenv.update(self.st.frames[0].env)      # the names of the function under verification win (its own self); callee parameter names stay visible
             for nm, r in self.clauses(extra):
                 self.oblige(f'call-req[{key}]#{nm}', self.truth(self.ev_spec(r, xenv)), node, info=tag)
         for exc, cond in c.get('raises', {}).items():
